@@ -345,17 +345,23 @@ def _r3_dispatch_fold(L, repo):
     T = [Opaque("TRX%d" % i) for i in range(3)]
     calls = []
 
+    rv = [None]
+
     def rec(name):
         def h(a):
             calls.append((name, tuple(a)))
+            return rv[0]
         return h
     e = Ev(repo, ci.mod, env={"self.trx_list.trx_list": list(T), "self.burst_fwd": Opaque("the forwarder"), P: 1325}, self_cls=ci)
     e.ignore_calls = ("log.", "logging.")
     e.hooks = {"TRX%d.clck_tick" % i: rec("TRX%d" % i) for i in range(3)}
     got = []
+    # whatever a transceiver's tick returns (nothing today; a count or a flag tomorrow), the others still tick
+    cases = [(1325, None), (1326, None), (1327, 0), (1328, 1), (1329, True)]
     try:
-        for fn_ in (1325, 1326):
+        for fn_, r_ in cases:
             e.env[P] = fn_
+            rv[0] = r_
             del calls[:]
             e.run_block(ch.body)
             got.append(list(calls))
@@ -363,8 +369,9 @@ def _r3_dispatch_fold(L, repo):
         return False
     L.unit(F2)
     L.fn(F2, fn2)
-    for fn_, g in zip((1325, 1326), got):
-        L.require("C02.R3", F2, fn2, "tick %d with three registered transceivers: each ticks exactly once, with the forwarder and the frame number" % fn_,
+    for (fn_, r_), g in zip(cases, got):
+        L.require("C02.R3", F2, fn2, "tick %d with three registered transceivers%s: each ticks exactly once, with the forwarder and the frame number" % (
+            fn_, "" if r_ is None else " whose clck_tick() returns %r" % (r_,)),
                   sorted(("TRX%d" % i, (Opaque("the forwarder"), fn_)) for i in range(3)), sorted(g), line=ch.lineno)
     return True
 
